@@ -1,6 +1,7 @@
 import GoMailModel.Proofs.EncodedWord
 import GoMailModel.Proofs.Fold
 import GoMailModel.Mime.Render
+import GoMailModel.Proofs.Addr
 /-
   C02 — No caller-supplied text can alter the header block.
   Core: whatever bytes a caller passes to a text-accepting setter, the stored header value is
@@ -73,6 +74,27 @@ theorem one_field_per_header (s : MsgState) (key : Bytes) (raw : List Bytes)
     exact stored_value_no_crlf s r hcs
   obtain ⟨lines, h1, h2, h3, h4, _⟩ := Fold.bufferString_structure key _ hk hv
   exact ⟨lines, h1, h2, h3, h4⟩
+
+/-- Display names set through the *Format helpers: the name-addr that formatAddress hands to the
+    address parser reads back (RFC 5322 quoted-string: `\\x` is x, an unescaped quote ends it) to
+    exactly the name and the address that were given — for EVERY name, whatever quotes, backslashes,
+    angle brackets or commas it contains. A name can therefore never smuggle a second address. -/
+theorem format_name_roundtrip (name addr : Bytes) :
+    Addr.readNameAddr (Addr.formatAddress name addr) = some (name, addr) :=
+  Addr.readNameAddr_format name addr
+
+/-- Rendering of an address whose display name has a backslash and needs RFC 2047 encoding: the
+    phrase consists of B encoded-words made of phrase-safe bytes only (no backslash, quote, angle
+    bracket, parenthesis, comma, colon, semicolon, at-sign, CR, LF); every other address is rendered by
+    net/mail's Address.String (taken as given). -/
+theorem address_phrase_safe (name std spec : Bytes)
+    (h : (name.contains 92 && EncodedWord.needsEncoding name) = true) :
+    ∃ phrase, Addr.addressString name std spec = phrase ++ [32] ++ spec ∧
+      ∀ c ∈ phrase, c ≠ 92 ∧ c ≠ 34 ∧ c ≠ 60 ∧ c ≠ 62 ∧ c ≠ 40 ∧ c ≠ 41 ∧ c ≠ 44 ∧ c ≠ 59 ∧ c ≠ 58 ∧ c ≠ 64 ∧ c ≠ 13 ∧ c ≠ 10 :=
+  Addr.addressString_phrase name std spec h
+
+example : Addr.readNameAddr (Addr.formatAddress (sb "a\" <evil@example.org>, \"b\\") (sb "u@example.com"))
+    = some (sb "a\" <evil@example.org>, \"b\\", sb "u@example.com") := by decide
 
 /-- non-vacuity: the classic injection attempt is neutralised -/
 example : AllSafe (sb "UTF-8") := by decide
